@@ -118,6 +118,38 @@ FSM['MAC.free'] = {
 }
 
 
+# author aead2: CCM, SIV, OCB.  Where the successor depends on the arguments or on declared lengths, `methods` lists CALL VARIANTS
+# ('encrypt:final', ...) and 'guard' maps a variant to the method name that must be in the state for the call to be permitted
+# (default: the variant's own name).
+# CCM (modern.rst, CCM: "msg_len ... If not specified, encrypt/decrypt may only be called once"): the generic diagram, except that with
+# an undeclared msg_len the first encrypt()/decrypt() carries the whole message and leaves only digest()/verify().
+FSM['CCM'] = {
+    'methods': ('update', 'encrypt', 'encrypt:msg_len_undeclared', 'decrypt', 'decrypt:msg_len_undeclared', 'digest', 'verify'),
+    'guard': {'encrypt:msg_len_undeclared': 'encrypt', 'decrypt:msg_len_undeclared': 'decrypt'},
+    'init': _AEAD_ALL,
+    'next': {'update': _AEAD_ALL, 'encrypt': ('encrypt', 'digest'), 'encrypt:msg_len_undeclared': ('digest',),
+             'decrypt': ('decrypt', 'verify'), 'decrypt:msg_len_undeclared': ('verify',), 'digest': ('digest',), 'verify': ('verify',)},
+}
+# SIV (modern.rst, SIV: no streaming): encrypt()/decrypt() are never permitted; encrypt_and_digest() / decrypt_and_verify() are the
+# out-edges of Initialized/Hashing (guarded by the names 'encrypt' / 'decrypt' in the state) and finish the object.
+FSM['SIV'] = {
+    'methods': ('update', 'encrypt', 'decrypt', 'digest', 'verify', 'encrypt_and_digest', 'decrypt_and_verify'),
+    'guard': {'encrypt': '<never>', 'decrypt': '<never>', 'encrypt_and_digest': 'encrypt', 'decrypt_and_verify': 'decrypt'},
+    'init': _AEAD_ALL,
+    'next': {'update': _AEAD_ALL, 'digest': ('digest',), 'verify': ('verify',), 'encrypt_and_digest': ('digest',),
+             'decrypt_and_verify': ('verify',), 'encrypt': (), 'decrypt': ()},
+}
+# OCB (modern.rst, OCB: "encrypt()/decrypt() ... must be called one last time with no arguments"): after the first piece only more pieces
+# or the finaliser are permitted; only the finaliser (or no message at all) opens digest()/verify().
+FSM['OCB'] = {
+    'methods': ('update', 'encrypt', 'encrypt:final', 'decrypt', 'decrypt:final', 'digest', 'verify'),
+    'guard': {'encrypt:final': 'encrypt', 'decrypt:final': 'decrypt'},
+    'init': _AEAD_ALL,
+    'next': {'update': _AEAD_ALL, 'encrypt': ('encrypt',), 'encrypt:final': ('digest',), 'decrypt': ('decrypt',), 'decrypt:final': ('verify',),
+             'digest': ('digest',), 'verify': ('verify',)},
+}
+
+
 # ---------------------------------------------------------------------------------------------------------------
 def _norm(state):
     return tuple(sorted(set(state)))
@@ -126,7 +158,7 @@ def _norm(state):
 def step(key, state, method):
     """successor state (sorted tuple) of a permitted call, or None when `method` is forbidden in `state`"""
     t = FSM[key]
-    if method not in state:
+    if t.get('guard', {}).get(method, method) not in state:      # call variants (author aead2) name their guard; default: the method itself
         return None
     nxt = t['next'][method]
     return _norm(state) if nxt is None else _norm(nxt)
